@@ -45,10 +45,11 @@ class NeedSplit(Exception):
 
 
 class Tup:
-    __slots__ = ("items",)
+    __slots__ = ("items", "lit")
 
-    def __init__(self, items):
+    def __init__(self, items, lit=None):
         self.items = tuple(items)
+        self.lit = lit          # "list" for a list display (only used to decide isinstance(<display>, list))
 
     def __eq__(self, o):
         return isinstance(o, Tup) and self.items == o.items
@@ -778,6 +779,30 @@ class Evaluator:
         return {small: minmax("min", [vx, vy]), big: minmax("max", [vx, vy])}
 
     def exec_for(self, st: ast.For, conds, env, ctx):
+        # a loop over an empty display runs zero times
+        if not st.orelse:
+            try:
+                ia = self.ev(st.iter, env, ctx)
+                if len(ia) == 1 and not ia[0][0] and type(ia[0][1]) is Tup and not ia[0][1].items:
+                    return [(conds, env, None)]
+                # a loop over a short display of known items is its body once per item, in order
+                if len(ia) == 1 and not ia[0][0] and type(ia[0][1]) is Tup and len(ia[0][1].items) <= 3 \
+                        and isinstance(st.iter, (ast.List, ast.Tuple, ast.Name)) \
+                        and not any(isinstance(n, (ast.Break, ast.Continue)) for b in st.body for n in ast.walk(b)):
+                    states = [(conds, dict(env), None)]
+                    for item in ia[0][1].items:
+                        nxt = []
+                        for (c0, e0, r0) in states:
+                            if r0 is not None:
+                                nxt.append((c0, e0, r0))
+                                continue
+                            e1 = dict(e0)
+                            self.bind(st.target, item, e1, ctx)
+                            nxt.extend(self.exec_block(st.body, [(c0, e1, None)], ctx))
+                        states = nxt
+                    return states
+            except Unreadable:
+                pass
         try:
             try:
                 return self._exec_for(st, conds, env, ctx)
@@ -1133,6 +1158,13 @@ class Evaluator:
         upd = tuple(sorted(((tuple(sorted(c, key=srepr)), p[0], p[1]) for c, p in _merge_rows(
             [(frozenset(c), (tuple(sorted((x for x in fx if isinstance(x, tuple) and x and x[0] == "local"), key=srepr)), rr))
              for c, fx, rr in rows])), key=srepr))
+        # pure accumulation: every carried variable is only ever `v + t` with t and the row's guards free of carried
+        # state, nothing else happens and the loop has no early exit - then v after the loop is init + sum(t) over the
+        # iteration (filtered by the row's guards): the same canonical form as the accumulation idiom / sum()
+        acc = self._as_accumulation(rows, order, index, inner_env, env, kind_term, depth) if test is None else None
+        if acc is not None:
+            e2.update(acc)
+            return [(conds, e2, None)]
         for nm in order:
             i = index[nm]
             if any(any(isinstance(x, tuple) and x and x[0] == "local" and x[1] == i for x in fx) for _, fx, _ in rows):
@@ -1147,6 +1179,44 @@ class Evaluator:
         if self.effects_mode and ctx.fx and observable:
             self._fx(e2, ("foreach", src, block))
         return [(conds, e2, None)]
+
+    def _as_accumulation(self, rows, order, index, inner_env, env, it_term, depth):
+        from .norm import all_atoms_deep
+
+        def carried_in(x) -> bool:
+            return any(isinstance(a, tuple) and len(a) == 3 and a[0] == "carried" and a[1] == depth for a in all_atoms_deep(x))
+
+        sums = {nm: Rat.const(0) for nm in order}
+        for c, fx, rr in rows:
+            if rr is not None:
+                return None
+            if any(not (isinstance(x, tuple) and x and x[0] == "local") for x in fx):
+                return None
+            if any(carried_in(g.x if isinstance(g.x, Rat) else ("t", g.x)) for g in c):
+                return None
+            filt = frozenset(c)
+            for x in fx:
+                nm = order[x[1]]
+                cur = inner_env[nm]
+                new = x[2]
+                if isinstance(new, tuple) and new and new[0] == "expr":
+                    new = new[1]
+                if not isinstance(new, Rat):
+                    if isinstance(new, tuple):
+                        new = Rat.atom(new)
+                    else:
+                        return None
+                if not isinstance(cur, Rat) or not isinstance(env.get(nm), Rat):
+                    return None
+                delta = new - cur
+                if carried_in(delta):
+                    return None
+                term = ("sum", it_term, delta) if not filt else ("sum", it_term, delta, filt)
+                sums[nm] = sums[nm] + Rat.atom(term)
+        out = {}
+        for nm in order:
+            out[nm] = env[nm] + sums[nm]
+        return out
 
     def _target_term(self, t, env, ctx):
         if isinstance(t, ast.Attribute):
@@ -1460,7 +1530,7 @@ class Evaluator:
                     for c2, v in self.ev(e, env, ctx):
                         nxt.append((c | c2, items + [v]))
                 alts = nxt
-            return [(c, Tup(items)) for c, items in alts]
+            return [(c, Tup(items, lit="list")) for c, items in alts]
         if isinstance(node, (ast.ListComp, ast.GeneratorExp)):
             return [(frozenset(), self.comp(node, env, ctx))]
         if isinstance(node, ast.Slice):
@@ -1572,6 +1642,9 @@ class Evaluator:
 
     def _ifexp_idiom(self, node: ast.IfExp, env, ctx):
         t = node.test
+        if isinstance(t, ast.UnaryOp) and isinstance(t.op, ast.Not):
+            # `a if not (c) else b` is `b if c else a`
+            return self._ifexp_idiom(ast.IfExp(test=t.operand, body=node.orelse, orelse=node.body), env, ctx)
         if not (isinstance(t, ast.Compare) and len(t.ops) == 1 and isinstance(t.ops[0], (ast.Lt, ast.LtE, ast.Gt, ast.GtE))):
             return None
         try:
@@ -1909,7 +1982,11 @@ class Evaluator:
         if nm in ("math.pow", "pow") and len(pos) == 2:
             return [(frozenset(), self.binop(ast.Pow(), self.as_num(pos[0], node, ctx), self.as_num(pos[1], node, ctx), node))]
         if short == "isinstance":
-            return [(frozenset(), Rat.atom(("isinstance", as_term(pos[0]), nm)))]
+            cls_txt = ast.unparse(node.args[1]) if len(node.args) > 1 else "?"
+            if isinstance(pos[0], Tup) and getattr(pos[0], "lit", None) == "list" and cls_txt in ("list", "List"):
+                return [(frozenset(), Lit(True))]
+            # the class tested is part of the predicate
+            return [(frozenset(), Rat.atom(("isinstance", as_term(pos[0]), cls_txt)))]
         if short in ("list", "tuple") and len(pos) == 1 and not isinstance(fv, FuncRef):
             if isinstance(pos[0], (Tup, Seq)):
                 return [(frozenset(), pos[0])]
@@ -2268,6 +2345,12 @@ def _contradict(conds: frozenset) -> bool:
             for d in (num_eqs[i] - num_eqs[j], num_eqs[i] + num_eqs[j]):
                 if d.is_const() and d.const_value() != 0 and not num_eqs[i].is_const():
                     return True
+    # an element of an empty collection cannot satisfy anything: `any(... for x in X)` with X known empty
+    anys = [c for c in conds if c.op == "true" and isinstance(c.x, tuple) and len(c.x) >= 2 and c.x[0] == "any"]
+    if anys:
+        empty = _known_empty(conds)
+        if empty and any(_mentions(c.x[1], t) for c in anys for t in empty):
+            return True
     for c in conds:
         try:
             if c.negate() in conds:
@@ -2681,6 +2764,9 @@ def _known_empty(conds):
     """Terms T such that the guards imply len(T) == 0 (len is a non-negative integer)."""
     out = []
     for c in conds:
+        if c.op == "false" and isinstance(c.x, tuple) and c.x and c.x[0] in ("attr", "sym", "idx", "item"):
+            out.append(c.x)          # `not X` for a container X: X is empty (iterating a falsy value yields nothing)
+            continue
         if c.op not in ("<", "<=", "==") or not isinstance(c.x, Rat) or not c.x.d.is_const():
             continue
         n = c.x.n
@@ -2721,8 +2807,40 @@ def _simplify_outcome(o, conds):
                     continue
                 keep.append(item)
             fx = frozenset(keep)
+        # abs / min / max inside effect arguments whose case the joint guards decide
+        if any(("min" in it[0] or "max" in it[0] or "abs" in it[0]) for it in fx):
+            nfx = []
+            for item in fx:
+                txt = item[0]
+                pre, body = (txt[:4], txt[4:]) if txt[:3].isdigit() else ("", txt)
+                e = FX_STRUCT.get(body)
+                if e is None or not ("min" in body or "max" in body or "abs" in body):
+                    nfx.append(item)
+                    continue
+                try:
+                    e2 = _simplify_term(e, conds)
+                    FX_STRUCT.setdefault(srepr(e2), e2)
+                    nfx.append((pre + srepr(e2),) + tuple(item[1:]))
+                except Exception:  # noqa
+                    nfx.append(item)
+            fx = frozenset(nfx)
         return (fx, simplify_under(o[1], conds))      # (effects signature, result): effects are compared as text
     return simplify_under(o, conds)
+
+
+def _simplify_term(t, conds):
+    if isinstance(t, Rat):
+        return simplify_under(t, conds)
+    if isinstance(t, (Tup, Obj)):
+        return simplify_under(t, conds)
+    if isinstance(t, tuple):
+        if t and t[0] in ("min", "max", "abs") and len(t) == 2:
+            r = simplify_under(Rat.atom(t), conds)
+            return as_term(r)
+        return tuple(_simplify_term(x, conds) for x in t)
+    if isinstance(t, frozenset):
+        return frozenset(_simplify_term(x, conds) for x in t)
+    return t
 
 
 def same_function(p1, p2):
